@@ -186,7 +186,7 @@ Proof. exact fixed_free_lock_acquired. Qed.
 Print Assumptions C19_fixed_free_lock_acquired.
 
 (* termination / no deadlock: a repaired loader of a bundled version that is
-   never killed itself and gets [load_bound c] = 8 + nfiles*(nchunks+4) + max_tries
+   never killed itself and gets [load_bound c] = 9 + nfiles*(nchunks+4) + max_tries
    turns has returned the bundled schema -- whatever the other processes do,
    however they are scheduled or killed (a dead lock holder loses the lock; a
    live one makes the loader give up after max_tries and read the installed file) *)
